@@ -21,7 +21,46 @@ package logqlpattern
 //@   loop 0 body_ensures[capture-reported-with-its-label] parts[rangeindex].Type == Capture && parts[rangeindex].Value != "_" ==> m_called && m_a0 == logql.Label(parts[rangeindex].Value) && m_a1 == ite(rangeindex+1 < len(parts), ct_r0, head(input))
 //@   loop 0 body_ensures[underscore-not-reported] parts[rangeindex].Type == Capture && parts[rangeindex].Value == "_" ==> !m_called
 
-// Frame only (assumed): the pattern parser allocates its result and reads its argument.
+// The pattern parser allocates its result and reads its argument; its reader starts at 0.
 //@ func Parse
-//@   trusted
 //@   modifies nothing
+//@   loop 0 modifies r.pos, p.Parts[*]
+//@   loop 0 invariant r != nil && fresh(r) && 0 <= r.pos && fresh(p.Parts)
+//@   loop 1 modifies dedup[*]
+//@   loop 1 invariant dedup != nil && fresh(dedup) && rangeindex+1 <= len(p.Parts)
+//@   loop 2 modifies nothing
+//@   loop 2 invariant rangeindex+1 <= len(p.Parts)
+
+// ---- C17: the reader's cursor stays inside the input (no slice panic).
+
+//@ func (*reader).next
+//@   requires 0 <= r.pos
+//@   modifies nothing
+//@   ensures ret1 >= 0 && (ret1 > 0 ==> r.pos + ret1 <= len(r.input))
+//@ func (*reader).Peek
+//@   requires 0 <= r.pos
+//@   modifies nothing
+//@ func (*reader).Read
+//@   requires 0 <= r.pos
+//@   modifies r.pos
+//@   ensures r.pos >= old(r.pos) && (old(r.pos) <= len(r.input) ==> r.pos <= len(r.input))
+//@ func (*reader).Unread
+//@   requires 0 <= r.pos
+//@   modifies r.pos
+//@   ensures 0 <= r.pos && r.pos <= old(r.pos)
+//@ func (*reader).Scan
+//@   requires 0 <= r.pos
+//@   modifies r.pos
+//@   ensures 0 <= r.pos
+//@ func (*reader).scanCapture
+//@   requires 0 <= r.pos
+//@   modifies r.pos
+//@   ensures 0 <= r.pos
+//@   loop 0 modifies r.pos, label.*
+//@   loop 0 invariant 0 <= r.pos
+//@ func (*reader).scanLiteral
+//@   requires 0 <= r.pos
+//@   modifies r.pos
+//@   ensures 0 <= r.pos
+//@   loop 0 modifies r.pos, literal.*
+//@   loop 0 invariant 0 <= r.pos
